@@ -91,6 +91,46 @@ def run(tier, replay=None):
     else:
         print("NOTE the first mrp had finished before the second started; the two-process lock test did not apply")
     c1.cleanup()
+    # ---- an instance that has given the pipestance up stays alive (mrp --noexit after a failure:
+    # it unlocks on every turn of its loop); a second instance attaches, takes the lock and runs:
+    # its lock must stay for as long as it runs
+    jobs_ = ["%s/%s/%d" % (i["inst"], i["kind"], i["chunk"]) for i in sem["chain"]["inv"]]
+    pw3 = os.path.join(wd, "proc3")
+    cn1 = procdrv.Cycle(root, pw3, prog, sem["chain"], "noexit1", faults={jobs_[0]: "errors"}, extra_args=["--noexit"], delay_ms=50)
+    on1 = {}
+    tn1 = threading.Thread(target=lambda: on1.update(rc=cn1.run(timeout=45)[0]))
+    tn1.start()
+    t_wait = time.time()
+    while time.time() - t_wait < 25 and not any(e.get("ev") == "Unlock" for e in cn1.events()):
+        time.sleep(0.1)
+    gave_up = any(e.get("ev") == "Unlock" for e in cn1.events()) and not cn1.locked()
+    noexit_report = {"first_failed_and_unlocked": gave_up}
+    if gave_up:
+        cn2 = procdrv.Cycle(root, pw3, prog, sem["chain"], "noexit2", delay_ms=2500)
+        on2 = {}
+        tn2 = threading.Thread(target=lambda: on2.update(rc=cn2.run(timeout=60)[0]))
+        tn2.start()
+        t_wait = time.time()
+        while not cn2.locked() and time.time() - t_wait < 20:
+            time.sleep(0.05)
+        took = cn2.locked()
+        hist = []
+        while tn2.is_alive() and len(hist) < 60:
+            hist.append(cn2.locked())
+            time.sleep(0.25)
+        tn2.join()
+        # (the last samples may fall into the second instance's own exit)
+        lost = took and len(hist) > 6 and not all(hist[:-3])
+        noexit_report.update({"second_took_the_lock": took, "lock_seen_while_second_ran": "".join("L" if h else "-" for h in hist),
+                              "second_exit": on2.get("rc")})
+        if lost:
+            viols.append({"key": "C15:lock:given-up-instance-removed-the-lock-of-the-next",
+                          "what": "an mrp that had failed and given the pipestance up (--noexit keeps it alive) removed the _lock of the mrp that attached after it, while that one was running (lock seen every 0.25 s: %s)" % noexit_report["lock_seen_while_second_ran"],
+                          "replay": {"report.json": json.dumps(noexit_report), "program.mro": cn2.mro}})
+    else:
+        print("NOTE the --noexit test did not apply: the first mrp did not fail and unlock in time")
+    tn1.join()
+    cn1.cleanup()
     # ---- creation of a new pipestance by several instances (spec/PsCreate.tla): exhaustive
     # with the repaired behaviour (OneHolder, HolderIntact, SomeoneFinishes); the behaviour as
     # found (the refused instance removes the directory) must violate HolderIntact
@@ -277,7 +317,7 @@ def run(tier, replay=None):
                                   "PsLock (2 instances, check-then-write): OneWriter violated by %s - replayed on the real code" % " ; ".join(race_trace)],
         "traces_validated_against_impl": len(ps) + len(lock),
         "pairs": len(ps), "edit_kinds": kinds, "outcomes": counts,
-        "lock_orders_replayed": lock, "two_process_lock_test": proc_report, "simultaneous_start_test": sim_report,
+        "lock_orders_replayed": lock, "two_process_lock_test": proc_report, "simultaneous_start_test": sim_report, "given_up_instance_test": noexit_report,
         "creation_model": "PsCreate.cfg: %d distinct states, OneHolder, HolderIntact and SomeoneFinishes hold; PsCreateBad.cfg violates HolderIntact by %s" % (pc_ok.distinct, " ; ".join(create_trace)),
         "attach_while_locked_attempts": 2 * len(ps),
         "samples": [{"pair": ps[0]["id"], "model_same": same[ps[0]["id"]], "real": res[ps[0]["id"]]["reattach"]}],
